@@ -201,7 +201,8 @@ def serialise(root) -> tuple[str, dict]:
             if not ok:
                 out.append("(other symbolic-slice)")
             else:
-                out.append(f"(index {cid(n.array)} ({' '.join(ix)}) {_shape(n.shape)})")
+                kw = "indexnc" if type(n).__name__ == "AdvancedIndexInNoncontiguousAxes" else "index"
+                out.append(f"({kw} {cid(n.array)} ({' '.join(ix)}) {_shape(n.shape)})")
         elif t is Einsum:
             ds = []
             for acc in n.access_descriptors:
